@@ -205,6 +205,7 @@ inductive POp where
   -- Counter
   | add (k : Int) | cget | fail (tag : Nat) (cls : ErrCls) | history | snapshot | echo (vs : List Val)
   | poke (target : Val) (v : Val) | pokePop (target : Val)
+  | relayFail (target : Val) (tag : Nat) (cls : ErrCls)   -- calls `fail` of another hosted Counter through a proxy, inside the server
   deriving Repr, DecidableEq
 
 /-- Python index normalisation -/
@@ -312,6 +313,9 @@ def ctrOp (h : Heap) (a : Nat) (n : Int) (log : Nat) : POp → Heap × Res
   | .echo vs => (h, .vals vs)
   | .poke (.ref j) v => match h j with                               -- proxy.append(v) inside the server
     | some (.lst vs) => (upd h j (.lst (vs ++ [v])), .val (.int (vs.length + 1)))
+    | _ => (h, .raised .attr)
+  | .relayFail (.ref j) tag cls => match h j with                    -- proxy.fail(tag, …) inside the server:
+    | some (.ctr _ log2) => (appendAt h log2 (.plain tag), .raised cls)  -- the inner Counter mutates, its exception comes out
     | _ => (h, .raised .attr)
   | .pokePop (.ref j) => match h j with                              -- proxy.pop() inside the server
     | some (.lst vs) => match vs.getLast? with
